@@ -11,6 +11,7 @@ import (
 	"strings"
 	"sync"
 	"sync/atomic"
+	"time"
 
 	"google.golang.org/grpc"
 	"google.golang.org/grpc/codes"
@@ -78,10 +79,12 @@ type RPCCase struct {
 	ToEOF  bool   `json:"to_eof,omitempty"` // the handler calls Recv once more after its last expected message
 	Deny   bool   `json:"deny,omitempty"`   // reference scripts: the handler fails before touching the stream
 	Reply  string `json:"reply,omitempty"`  // reference scripts: the unary handler returns the replacement message
+	ICode  int    `json:"icode,omitempty"`  // status code returned by a denying / overriding interceptor (default 7)
 	Opts   Opts   `json:"opts"`
 }
 
-func (c *RPCCase) unary() bool { return c.Method == "Echo" }
+func (c *RPCCase) unary() bool   { return c.Method == "Echo" }
+func (c *RPCCase) proxied() bool { return strings.HasPrefix(c.Target, "proxy") }
 func (c *RPCCase) cstream() bool {
 	return c.Method == "CS" || c.Method == "Bidi"
 }
@@ -166,6 +169,7 @@ type traceKey struct{}
 type rpcSvc struct {
 	std     *svc.Std
 	be      *backend
+	beDown  *backend // back-end of the "proxy-down" target: stopped after registration
 	scns    sync.Map
 	seq     int64
 	muxMu   sync.Mutex
@@ -191,6 +195,47 @@ func (s *rpcSvc) Close() {
 	if s.be != nil {
 		s.be.Close()
 	}
+	if s.beDown != nil {
+		s.beDown.Close()
+	}
+}
+
+// prepareDown builds the "proxy-down" target: muxes (one per option set)
+// registered through RegisterConn against a second back-end, which is then
+// stopped, so that every proxied call fails inside larking's forwarder with
+// the client connection's Unavailable error. The connection is exercised until
+// that error has settled ("connection refused"), so that transcripts are
+// comparable across runs.
+func (s *rpcSvc) prepareDown(optsList []Opts) error {
+	be, err := startBackend(s.std, s.unary, s.stream)
+	if err != nil {
+		return err
+	}
+	s.beDown = be
+	for _, o := range optsList {
+		if _, err := s.muxFor("proxy-down", o); err != nil {
+			return err
+		}
+	}
+	be.srv.Stop()
+	deadline := time.Now().Add(10 * time.Second)
+	lastMsg, same := "", 0
+	for time.Now().Before(deadline) {
+		ctx, cancel := context.WithTimeout(context.Background(), 2*time.Second)
+		err := be.cc.Invoke(ctx, s.std.Full("Echo"), newChunk(), newChunk())
+		cancel()
+		msg := fmt.Sprint(err)
+		if err != nil && msg == lastMsg && strings.Contains(msg, "refused") {
+			if same++; same >= 3 {
+				return nil
+			}
+		} else {
+			same = 0
+		}
+		lastMsg = msg
+		time.Sleep(5 * time.Millisecond)
+	}
+	return fmt.Errorf("stopped back-end: error did not settle (last: %s)", lastMsg)
 }
 
 func (s *rpcSvc) lookup(ctx context.Context) *rscn {
@@ -232,6 +277,11 @@ func (s *rpcSvc) muxFor(target string, o Opts) (*larking.Mux, error) {
 			return nil, errors.New("no backend")
 		}
 		m, err = s.be.newProxyMux(mo...)
+	} else if target == "proxy-down" {
+		if s.beDown == nil {
+			return nil, errors.New("no stopped backend (option set not prepared)")
+		}
+		m, err = s.beDown.newProxyMux(mo...)
 	} else {
 		m, err = newMux(s.std, s.unary, s.stream, mo...)
 	}
@@ -350,10 +400,15 @@ func (s *rpcSvc) stream(md protoreflect.MethodDescriptor, ss grpc.ServerStream) 
 
 // ---- interceptors
 
-var (
-	errDenied   = status.Error(codes.PermissionDenied, "denied by interceptor")
-	errOverride = status.Error(codes.PermissionDenied, "overridden by interceptor")
-)
+func (c *RPCCase) icode() codes.Code {
+	if c.ICode == 0 {
+		return codes.PermissionDenied
+	}
+	return codes.Code(c.ICode)
+}
+
+func (c *RPCCase) errDenied() error   { return status.Error(c.icode(), "denied by interceptor") }
+func (c *RPCCase) errOverride() error { return status.Error(c.icode(), "overridden by interceptor") }
 
 func (s *rpcSvc) unaryIcpt(mode string) grpc.UnaryServerInterceptor {
 	return func(ctx context.Context, req interface{}, info *grpc.UnaryServerInfo, handler grpc.UnaryHandler) (interface{}, error) {
@@ -368,8 +423,9 @@ func (s *rpcSvc) unaryIcpt(mode string) grpc.UnaryServerInterceptor {
 			sc.add("ui", "return", "", nil, 0, nil)
 			return replacement(), nil
 		case "deny":
-			sc.add("ui", "return", "", errDenied, 0, nil)
-			return nil, errDenied
+			err := sc.spec.errDenied()
+			sc.add("ui", "return", "", err, 0, nil)
+			return nil, err
 		}
 		resp, err := handler(ctx, req)
 		sc.add("ui", "return", "", err, 0, nil)
@@ -391,11 +447,13 @@ func (s *rpcSvc) streamIcpt(mode string) grpc.StreamServerInterceptor {
 		switch mode {
 		case "override":
 			handler(srv, ss) //nolint:errcheck
-			sc.add("si", "return", "", errOverride, 0, nil)
-			return errOverride
+			err := sc.spec.errOverride()
+			sc.add("si", "return", "", err, 0, nil)
+			return err
 		case "deny":
-			sc.add("si", "return", "", errDenied, 0, nil)
-			return errDenied
+			err := sc.spec.errDenied()
+			sc.add("si", "return", "", err, 0, nil)
+			return err
 		}
 		err := handler(srv, ss)
 		sc.add("si", "return", "", err, 0, nil)
@@ -796,13 +854,13 @@ func (s *rpcSvc) check(c *RPCCase, o *outcome) (vs []viol, obs map[string]int) {
 		} else {
 			wantOut = 0
 		}
-		if c.Target == "proxy" {
+		if c.proxied() {
 			wantIn = 1
 			if c.Opts.Unary == "deny" {
 				countKnown = false // whether the refused request counts as "received" is not specified
 			}
 		}
-	} else if c.Target == "proxy" && !c.sstream() {
+	} else if c.proxied() && !c.sstream() {
 		// The back-end's single reply reaches larking's forwarder only with an
 		// OK status (grpc-go's client drops it otherwise): what the forwarder,
 		// i.e. larking's handler, sends is one message iff the call succeeded.
@@ -811,7 +869,9 @@ func (s *rpcSvc) check(c *RPCCase, o *outcome) (vs []viol, obs map[string]int) {
 			wantOut = 1
 		}
 	}
-	if c.Target == "proxy" && hret == nil && !(uiOn || siOn) {
+	if c.proxied() && hret == nil && (!(uiOn || siOn) || (c.Target == "proxy-down" && !c.unary())) {
+		// the back-end was not reached: what larking's forwarder received
+		// before it failed is not observable from outside
 		countKnown = false
 		obs["proxy_backend_not_reached"]++
 	}
@@ -898,16 +958,18 @@ func reference(c *RPCCase) *RPCCase {
 		case "replace":
 			r.Fail, r.Plain, r.Reply = false, false, "replaced"
 		case "deny":
-			r.Fail, r.Plain, r.Code, r.Msg = true, false, int(codes.PermissionDenied), "denied by interceptor"
+			r.Fail, r.Plain, r.Code, r.Msg = true, false, int(c.icode()), "denied by interceptor"
 		}
+		r.ICode = 0
 		return &r
 	}
 	switch c.Opts.Stream {
 	case "override":
-		r.Fail, r.Plain, r.Code, r.Msg = true, false, int(codes.PermissionDenied), "overridden by interceptor"
+		r.Fail, r.Plain, r.Code, r.Msg = true, false, int(c.icode()), "overridden by interceptor"
 	case "deny":
-		r.Deny, r.Plain, r.Code, r.Msg = true, false, int(codes.PermissionDenied), "denied by interceptor"
+		r.Deny, r.Plain, r.Code, r.Msg = true, false, int(c.icode()), "denied by interceptor"
 	}
+	r.ICode = 0
 	return &r
 }
 
@@ -968,7 +1030,10 @@ func (g *c18run) group(base RPCCase, optsList []Opts) {
 		c := base
 		c.Opts = o
 		ref := reference(&c)
-		racy := c.Target == "proxy" && !c.unary() && o.Stream == "deny"
+		decides := (c.unary() && (o.Unary == "replace" || o.Unary == "deny")) || (!c.unary() && (o.Stream == "override" || o.Stream == "deny"))
+		// with the back-end down no script of the handler is a reference for
+		// what a deciding interceptor returns
+		racy := (c.proxied() && !c.unary() && o.Stream == "deny") || (c.Target == "proxy-down" && decides)
 		want, ok := "", true
 		if !racy {
 			want, ok = g.baseline(ref)
@@ -987,9 +1052,9 @@ func (g *c18run) group(base RPCCase, optsList []Opts) {
 		// larking's forwarder still sending (the forwarder then reports the
 		// io.EOF of its SendMsg instead of the back-end's status: C10's
 		// subject), so it is no reference for a denying stream interceptor.
-		comparable := !(c.Target == "proxy" && !c.unary() && ((!c.sstream() && o.Stream == "override") || o.Stream == "deny"))
+		comparable := !(racy || (c.proxied() && !c.unary() && !c.sstream() && o.Stream == "override"))
 		marker := "overridden by interceptor"
-		if o.Stream == "deny" {
+		if o.Stream == "deny" || (c.unary() && o.Unary == "deny") {
 			marker = "denied by interceptor"
 		}
 		out, err := g.s.exec(&c)
@@ -1206,6 +1271,52 @@ func RunC18(r *mon.Run) {
 			}
 		}
 	}
+	// the failure code as a dimension: every status code returned by the
+	// handler, and by a denying / overriding interceptor
+	codeOpts := []Opts{{}, {Unary: "rec", Stream: "rec", Stats: true}, {Unary: "rec"}, {Stream: "rec"}, {Stats: true}}
+	codeMethods := []string{"Echo", "Bidi"}
+	codeProtos := []string{"grpc", "http-json"}
+	if r.Thorough() {
+		codeMethods = methods
+		codeProtos = []string{"grpc", "web", "webtext", "http-json", "http-proto"}
+	}
+	for _, target := range []string{"local", "proxy"} {
+		for _, method := range codeMethods {
+			for _, p := range codeProtos {
+				for code := 1; code <= 16; code++ {
+					in, out := shapeIO(method, 5, 2, 2)
+					jobs = append(jobs, job{RPCCase{Part: "rpc", Target: target, Proto: p, Method: method, In: in, Out: out, Fail: true, Code: code, Msg: fmt.Sprintf("handler failed with code %d", code)}, codeOpts})
+					c := RPCCase{Part: "rpc", Target: target, Proto: p, Method: method, In: in, Out: out, ICode: code}
+					if method == "Echo" {
+						jobs = append(jobs, job{c, []Opts{{}, {Unary: "deny"}, {Unary: "deny", Stats: true}}})
+					} else {
+						jobs = append(jobs, job{c, []Opts{{}, {Stream: "override"}, {Stream: "deny", Stats: true}}})
+					}
+				}
+			}
+		}
+	}
+	// proxied target whose back-end is down: the forwarder itself fails
+	downOpts := []Opts{{}, {Unary: "rec", Stream: "rec", Stats: true}, {Unary: "rec"}, {Stream: "rec"}, {Stats: true}, {Unary: "deny", Stream: "deny"}, {Unary: "deny", Stream: "override", Stats: true}}
+	if err := s.prepareDown(downOpts); err != nil {
+		r.Inconclusive("stopped back-end: " + err.Error())
+	} else {
+		for _, method := range methods {
+			for _, p := range []string{"grpc", "web", "http-json", "http-get"} {
+				if p == "http-get" && method != "Echo" && method != "SS" {
+					continue
+				}
+				for _, size := range []int{0, 5} {
+					in, out := shapeIO(method, size, 2, 2)
+					c := RPCCase{Part: "rpc", Target: "proxy-down", Proto: p, Method: method, In: in, Out: out}
+					if p == "http-get" {
+						c.In = nil
+					}
+					jobs = append(jobs, job{c, downOpts})
+				}
+			}
+		}
+	}
 	// thorough: PRNG-generated scripts
 	extra := r.Pick(0, 5200)
 	for i := 0; i < extra; i++ {
@@ -1293,12 +1404,18 @@ func replayRPC(r *mon.Run, raw json.RawMessage) {
 		replayWS(r, &c)
 		return
 	}
-	s, err := newRPCSvc(c.Target == "proxy")
+	s, err := newRPCSvc(c.proxied())
 	if err != nil {
 		r.Inconclusive("C18 setup: " + err.Error())
 		return
 	}
 	defer s.Close()
+	if c.Target == "proxy-down" {
+		if err := s.prepareDown([]Opts{{}, c.Opts}); err != nil {
+			r.Inconclusive("stopped back-end: " + err.Error())
+			return
+		}
+	}
 	o := c.Opts
 	c.Opts = Opts{}
 	if doc.Lane == "sockets" {
